@@ -295,6 +295,9 @@ fn gen08(seed: u64, n: usize, out: &str) {
                         authed.push(c);
                         let k = *g.pick(&[2u64, 2, 3, 1]);
                         writeln!(w, "auth c={} k={} ready={}", c, k, if g.chance(5, 6) { 1 } else { 0 }).unwrap();
+                        if g.chance(2, 3) {
+                            writeln!(w, "q c={} kind=RoomList", c).unwrap();
+                        }
                     }
                 }
                 7 if !conns.is_empty() => {
